@@ -125,6 +125,8 @@ def run_pair(case):
         if cu != (covA | covB):
             raise Violation("law-union", f"union {got['u']} does not cover exactly A u B")
     cl = classify(EA, EB) + (["operand_edited_in_place_before"] if edited else [])
+    if EA and len(EA) == len(EB) and EA != EB and all(x[2] == y[2] and math.isclose(x[0], y[0]) and math.isclose(x[1], y[1]) for x, y in zip(EA, EB)):
+        cl.append("almost_identical")
     nt = bool(EA) and bool(EB) and bool({"overlap", "touching"} & set(cl))
     return {"classes": cl, "nontrivial": nt}
 
@@ -285,8 +287,16 @@ def pair_cases(draw):
     lab = st.sampled_from(["a", "b", "c", "x y", "", "a(b)", "b(a,c)", "a-b"])
     A = draw(gen.interval_tier(style=style, max_segments=8, label=lab, name="A"))
     r = draw(st.integers(0, 9))
-    if r == 0:
+    if r in (0, 9):
         B = dict(A, name="B")
+        if style != "grid" and draw(st.booleans()):
+            # almost A: every boundary within 1e-9 (relative) of A's, some entries a little shorter - thin rims remain
+            ents = []
+            for s0, e0, l in A["entries"]:
+                ds, de = draw(st.sampled_from([0.0, 2e-10])), draw(st.sampled_from([0.0, 3e-10]))
+                ents.append([s0 + ds * max(s0, 0.1), e0 - de * e0, l])
+            if all(x[0] < x[1] for x in ents):
+                B = dict(A, name="B", entries=ents)
     elif r <= 3:
         # B built from A's boundaries (touching / nested / shared edges)
         bs = {t for e in A["entries"] for t in e[:2]} | set(draw(gen.boundaries(style, 3)))
